@@ -135,6 +135,11 @@ def interpStep (op : SrvOp) (i : ISt) (st : String) : ISt × String :=
     if noClient i k then (i, "nc") else
     let i := quiesce cfg { i with s := step cfg i.s (.clientSend k id .normal) }
     (i, replyObs i k id)
+  | "m" =>
+    -- 25 requests (ids id .. id+24) written at once: each is answered, in order
+    if noClient i k then (i, "nc") else
+    let i := (List.range 25).foldl (fun i j => quiesce cfg { i with s := step cfg i.s (.clientSend k (id + j) .normal) }) i
+    (i, if (List.range 25).all (fun j => (i.s.conns k).replied.contains (id + j)) then s!"r{id}x25" else "eof")
   | "s" =>
     if noClient i k then (i, "nc") else
     let i := quiesce cfg { i with s := step cfg i.s (.clientSend k id .normal), blocked := k :: i.blocked,
@@ -277,6 +282,8 @@ def judgeC17 (op : SrvOp) (out : String) : Expect :=
       let (verb, k, id) := splitStep st
       let b := if o == "to" || o.endsWith "stuck" || o == "nocb" || o == "hang" || o == "?" || o == "st-open" then
         b.fail s!"step {st}: the expected event never happened ({o})" else b
+      let b := if (o.splitOn "NOT-CLOSED").length > 1 then
+        b.fail s!"step {st}: a rejected connection was not closed (the client read the end of the stream, the server's end still takes what it writes)" else b
       match verb with
       | "c" | "ch" =>
         if o == "x" then
@@ -310,9 +317,9 @@ def judgeC17 (op : SrvOp) (out : String) : Expect :=
           else if o == "z" then
             if !(b.shutdownCalled || b.cancelled) then b.fail "accepted connection closed by a serving server" else b
           else b
-      | "q" | "h" =>
+      | "q" | "h" | "m" =>
         if b.limbo.contains k then b else
-        if b.live.contains k && !b.busy.contains k && o != s!"r{id}" then b.fail s!"step {st}: no reply on a live connection ({o})" else
+        if b.live.contains k && !b.busy.contains k && o != (if verb == "m" then s!"r{id}x25" else s!"r{id}") then b.fail s!"step {st}: no reply on a live connection ({o})" else
         if !b.live.contains k && o.startsWith "r" then b.fail s!"step {st}: reply on a connection that should be closed" else b
       | "s" => if o == "st" then { b with busy := k :: b.busy } else b
       | "b" => if o == "bw" then { b with busy := k :: b.busy } else
